@@ -619,14 +619,15 @@ def _parser_eval(prog, f):
             ev = Ev(prog, fuel=20000)
             ev.ext["argparse"] = argparse
             ev.preset("__init__", "__version__", "0.0")
+            # the module's top-level statements, in order: bindings of plain names and expression statements (the parser may be built
+            # directly, by add_argument statements, or from a table filled by calls further up); defs, classes and imports are the
+            # loader's business
             env = {}
-            built = False
             for st in mod.tree.body:
-                if isinstance(st, ast.Assign) and len(st.targets) == 1 and isinstance(st.targets[0], ast.Name) and st.targets[0].id == "parser":
+                if isinstance(st, ast.Assign) and len(st.targets) == 1 and isinstance(st.targets[0], ast.Name):
                     ev.block([st], env, _ModScope(mod))
-                    built = True
-                elif built and isinstance(st, ast.Expr) and isinstance(st.value, ast.Call) and isinstance(st.value.func, ast.Attribute) \
-                        and isinstance(st.value.func.value, ast.Name) and st.value.func.value.id == "parser":
+                    ev.preset("cli", st.targets[0].id, env[st.targets[0].id])
+                elif isinstance(st, ast.Expr) and isinstance(st.value, ast.Call):
                     ev.block([st], env, _ModScope(mod))
             p = env.get("parser")
             if not isinstance(p, argparse.ArgumentParser):
